@@ -114,7 +114,9 @@ def run(ctx, rep):
     rep.check("C12.d", "walk-from-all-snapshot-trees", okr, where=CP.loc(), what="the blob-collecting tree walk starts from the root tree of every snapshot to copy (unfiltered)" if okr else
               "the tree walk that collects the blobs to copy does not start from every snapshot's root tree (roots are filtered): blobs below an already-present root are never examined")
     # tree walk errors abort
-    nx = [bb for bb, t in CP.calls() if "callee" in t and re.search(r"TreeStreamerOnce as std::iter::Iterator>::next$", callee(t))]
+    # `while let Some(item) = streamer.next().transpose()?` or `for item in &mut streamer { let x = item?; .. }` (next through `&mut I`)
+    nx = [bb for bb, t in CP.calls() if "callee" in t and (re.search(r"TreeStreamerOnce as std::iter::Iterator>::next$", callee(t))
+          or (re.search(r"Iterator>::next$", callee(t)) and "TreeStreamerOnce" in " ".join(t.get("gargs") or [])))]
     tb = [bb for bb, t in CP.calls() if "callee" in t and flow.TRY_BRANCH.search(callee(t))]
     okw = any(any(n_ in flow.backward_slice(CP, op_place(CP.term(b_)["args"][0]))["call_sites"] for n_ in nx) for b_ in tb)
     rep.check("C12.d", "walk-errors-abort", bool(nx) and okw, where=CP.loc(), what="an unreadable source tree aborts copy (the streamer's item is `?`-propagated)")
